@@ -96,7 +96,7 @@ class BaseLinker(SolverMixin, ModelInterface):
             for id_ in identifiers:
                 # Check spans are identical
                 comparator = self.__dict__['submodels'][id_]
-                if comparator.span != base.span:
+                if list(comparator.span) != list(base.span):
                     raise InitialisationError(
                         f'''\
 Spans of submodels differ:
